@@ -1,4 +1,4 @@
-From SplVerif Require Import Lib.Base Tlv.Model Tlv.Spec Tlv.Walk Tlv.Parse Tlv.Ops Tlv.Refine Tlv.Corollaries Props.C01.
+From SplVerif Require Import Lib.Base Tlv.Model Tlv.Spec Tlv.Walk Tlv.Parse Tlv.Ops Tlv.Refine Tlv.Corollaries Tlv.AnyTail Props.C01.
 Local Open Scope N_scope.
 (* PINS *)
 Check C01_refines : forall n ops es, fits n es -> Forall wf_op ops -> run ops (render n es) = render n (s_run n ops es) /\ fits n (s_run n ops es).
@@ -9,3 +9,5 @@ Check C01_shape : forall n es o, if is_push o then fst (s_step n es o) = es \/ e
 Check C01_isolation : forall n es o t' r', (is_push o = false -> t' <> op_tag o \/ r' <> op_rep o) -> lookup_value es t' r' <> None -> lookup_value (fst (s_step n es o)) t' r' = lookup_value es t' r'.
 Check C01_order_kept : forall n es o, is_push o = false -> map fst (fst (s_step n es o)) = map fst es.
 Check C01_reopen : forall n es, fits n es -> check_data (render n es) = Ok tt.
+Check C01_resize_any_valid_slab : forall es (tail : list byte) t r a v b l, Forall wf_entry es -> term tail -> wf_tag t -> split_entry es t r = Some (a, v, b) -> realloc (enc es ++ tail) t l r = if (len v <? l) && (len (enc es ++ tail) <? len (enc es) + (l - len v)) then (enc es ++ tail, Err E_INVALID_ACCOUNT_DATA) else if U32_LIMIT <=? l then (enc es ++ tail, Err E_TOO_SMALL) else (enc (a ++ (t, resize l v) :: b) ++ tail_after tail (len v) l, Ok (voff a)).
+Check C01_alloc_any_valid_slab : forall es (tail : list byte) t l a, Forall wf_entry es -> term tail -> wf_tag t -> (a || negb (has t es)) = true -> HDR + l <= len tail -> l < U32_LIMIT -> alloc (enc es ++ tail) t l a = (enc (es ++ [(t, firstn (N.to_nat l) (skipn 12 tail))]) ++ skipn (12 + N.to_nat l) tail, Ok (voff es, count t es)).
